@@ -15,11 +15,11 @@ def run(ctx):
         bfs = [("nb2", half, 2), ("all1", allr, 1)]
         walks = [dict(label="walk", tags="", walks=12, plies=40, shards=12)]
     else:
-        bfs = [("nb3", nb, 3), ("r0-2", r0, 2), ("all2", allr, 2)]
+        bfs = [("nb3", nb, 3), ("all2", allr, 2)]
         walks = [dict(label="walk", tags="", walks=40, plies=80, shards=28)]
     fam = [("ep-slice", "Families_pos.cfg", {"VERIF_FAMILY": "ep", "VERIF_VARIANT": "rbq"[ctx.seed % 3], "VERIF_FILE": (ctx.seed * 3) % 8,
                                               "VERIF_SLICE": ctx.seed % 16, "VERIF_SLICES": 16})] if ctx.tier == "quick" else \
-          [("ep-%s-%d" % (v, f), "Families_pos.cfg", {"VERIF_FAMILY": "ep", "VERIF_VARIANT": v, "VERIF_FILE": f, "VERIF_SLICE": 0, "VERIF_SLICES": 1})
+          [("ep-%s-%d" % (v, f), "Families_pos.cfg", {"VERIF_FAMILY": "ep", "VERIF_VARIANT": v, "VERIF_FILE": f, "VERIF_SLICE": (ctx.seed + f) % 8, "VERIF_SLICES": 8})
            for v in "rbq" for f in range(8)]
     if ctx.tier == "quick":
         fam = fam + [("castle-slice", "Families_pos.cfg", {"VERIF_FAMILY": "castle", "VERIF_VARIANT": "nbrqp"[(ctx.seed + 2) % 5], "VERIF_FILE": 0,
